@@ -577,7 +577,9 @@ fn c18_pair(col: &mut Collector, cx: &Ctx, e: &Entry, doc: &PDoc, m: &PMessage, 
     let bound = if cx.thorough { 3 } else { 2 };
     let mut pending = vec![];
     let mut evals = 0;
-    let st = explore::explore(bound, if cx.thorough { 3000 } else { 200 }, |ec| {
+    // large pairs (16 KiB strings, 140-element runs) cost milliseconds per decode: fewer interleavings
+    let cap = if e1.len() + e2.len() > 4096 { 60 } else if cx.thorough { 1500 } else { 200 };
+    let st = explore::explore(bound, cap, |ec| {
         let (mut i, mut j) = (0, 0);
         let mut seq: Vec<Node> = vec![];
         let mut switches = 0;
@@ -639,8 +641,9 @@ pub fn c18(cx: &Ctx, col: &mut Collector) {
         let rows: Vec<&PMsg> = vals.iter().filter(|v| v.0.len() > 1).collect();
         let singles: Vec<&PMsg> = vals.iter().filter(|v| v.0.len() == 1).collect();
         let mut pairs: Vec<(&PMsg, &PMsg)> = vec![];
-        for a in &rows {
-            for b in &rows {
+        let nrows = rows.len().min(12);
+        for a in rows.iter().take(nrows) {
+            for b in rows.iter().take(nrows) {
                 pairs.push((a, b));
             }
         }
